@@ -31,7 +31,7 @@ Section Toolbox.
     if String.eqb f "bytes(map(operator.xor))" then match args with [VBytes x; VBytes y] => VBytes (xor_zip x y) | _ => VErr end else
     if String.eqb f "bytes" then
       match args with
-      | [VInt n] => if n <? 0 then VErr else VBytes (zeros (Z.to_nat n))
+      | [VInt n] => match n with Zneg _ => VErr | _ => VBytes (zeros (Z.to_nat n)) end
       | [VTuple l] => match ints_of l with Some zs => match bytes_of zs with Some b => VBytes b | None => VErr end | None => VErr end
       | _ => VErr
       end else
